@@ -94,6 +94,17 @@ fn funcs() -> Vec<Func> {
     ]
 }
 
+/// The failing call of a composite projection on its own (the operand is always evaluated).
+fn base_of(name: &str) -> Option<fn(&str) -> String> {
+    match name {
+        "nested-in-binary" | "binary-right" | "binary-right-mul" | "compare-right" | "compare-left" | "in-list-element" | "function-argument" | "unary-minus" | "case-else"
+        | "coalesce-second" | "is-null-of-call" | "index-right" | "second-of-three" => Some(|x| format!("toInteger({x})")),
+        "nested-in-list" | "nested-in-case" | "nested-in-map" => Some(|x| format!("toBoolean({x})")),
+        "string-concat-right" => Some(|x| format!("toString({x})")),
+        _ => None,
+    }
+}
+
 pub const WRAPPERS: &[&str] = &[
     "distinct",
     "union-left",
@@ -215,7 +226,20 @@ fn check(c: &Poison, unsupported: &[&str], obs: &mut Obs) -> CaseResult {
     }
     // ---- plain form must raise
     match outcome(&plain, &bd)? {
-        Ok(_) => {
+        Ok(rows) => {
+            // the failing call sits in an operand position that is always evaluated: when the
+            // call alone raises for this row, the enclosing expression has to raise as well
+            if let Some(base) = base_of(f.name) {
+                let alone = format!("UNWIND {list} AS x RETURN {} AS c0", base("x"));
+                if outcome(&alone, &bd)?.is_err() {
+                    obs.nontrivial();
+                    fail!(
+                        format!("error-swallowed:operand-position:{}", f.name),
+                        "the call alone raises but the enclosing expression returned {rows} rows without an error\n call alone: {alone}\n enclosing: {plain}\n params: {:?}\n poison row {pos} of {n}",
+                        bd.params
+                    );
+                }
+            }
             obs.class("plain-did-not-raise");
             return Ok(());
         }
